@@ -59,6 +59,8 @@ func (e *Engine) afterSkippedInit(pkg *ssa.Package) {
 		e.setupOSGlobals(pkg)
 	case "time":
 		e.setupTimeGlobals(pkg)
+	case "net/http":
+		e.setupHTTPGlobals(pkg)
 	}
 }
 
